@@ -197,7 +197,7 @@ def run_case(case, gen_rng=None):
     stats['switches'] = W.k.n_switches
     stats['events'] = len(W.k.log)
     stats['lines'] = W.k.ln
-    for fk, cls in W.k.fired:
+    for fk, cls, _sk in W.k.fired:
         stats['fault.' + cls] = stats.get('fault.' + cls, 0) + 1
     nested_events = [e for e in W.k.log if e[3] == 'nested-outcome']
     stats['nested_calls'] = len(nested_events)
